@@ -19,7 +19,6 @@ BUDGET = {'quick': (4, 300), 'thorough': (16, 5000)}
 SHRINK_CAP = {'quick': 300, 'thorough': 3000}
 ASSUMPTIONS = ['besides random stages, one older stage is derived from the document itself (an extra entry in every container), so that the delete flag of every container shows',
                'the document is dumped as parsed (before preprocessing), re-parsed under the same file name',
-               'documents in which an aliased node is adopted by parents handing down different inherited flags are skipped (not expressible as text)',
                'evaluation is compared for documents without structural nodes (includes / !prev / !append need files or older stages)']
 
 
